@@ -87,6 +87,12 @@ CLAIMED.update({
            'first, argsort positions are segment-local and realise the order, stable sorts keep equal keys in input order; segment lengths case-split.',
            'Bounds: <= 2 segments of <= 3 (ints) / 2 (floats, quick; 3 thorough) elements. Outside: option re-insertion and axis plumbing in the C++ '
            'sort_next methods, string sorting kernels. Known finding: the unstable float sort (quick_sort) does not put NaN first.', 'DESIGN.md section 3 (C06)'),
+ 'C10': mc('Narrow claim (RecordArray node only): carry(index), getitem_range_nowrap(start, stop) and field(position) of RecordArray executed from their IR on records '
+           'with 0..3 opaque field contents: every field content receives the same positional request, record i of the result holds field by field what the request selects '
+           'from each content (so projecting a field by position commutes with positional selection), record count and (absent) field names follow; a field position '
+           'outside the record raises.',
+           'Key (string) based access, getitem_fields, zip / unzip / with_field and dict conversion order (Python over _ext) are outside.', 'DESIGN.md section 9.5',
+           'SMT bounded model checking of C++ method LLVM IR (llbmc node-method harness, opaque field contents); native replay through the whole library (akrun)'),
  'C14': mc('Narrow claim (GrowableBuffer only): one inductive step of append / set_length / clear of GrowableBuffer<int64_t>, executed symbolically from '
            'the method IR from an arbitrary state satisfying the representation invariant: writes stay inside the buffer they target, cells [0, old '
            'length) of the old buffer (shared with snapshots) are never written, the prefix is preserved across reallocation, the invariant is re-established. '
@@ -115,7 +121,6 @@ CLAIMED.update({
 })
 
 NOT_APPLICABLE = {
- 'C10': 'record field plumbing lives in std::string/std::vector<shared_ptr> code of RecordArray.cpp and in Python glue over _ext, which cannot be built (pybind11 headers absent); no integer kernel carries the property',
  'C15': 'io/json.cpp is a rapidjson SAX client; rapidjson headers are absent so the file cannot be compiled or lowered to IR',
  'C16': 'entirely operations/convert.py over _ext, NumPy and pyarrow; _ext cannot be built and symbolic execution stops at every one of those C boundaries',
  'C17': 'Form/Type JSON and parameters need rapidjson; type strings are std::string building; the datashape parser is a Lark table over regex lexing that builds _ext objects',
